@@ -10,7 +10,10 @@ Inductive kind :=
 | KAlpha
 | KUnsigned (w : nat) | KSigned (w : nat) | KFloat (w : nat)
 | KCollation
-| KCompound (s : list ftype).
+| KCompound (s : list ftype)
+(* a compound tree over an arbitrary user codec (BinaryComparableKey: Transform / Restore);
+   the caller's key is an opaque byte string  AB u *)
+| KCodec (enc : list N -> list N) (dec : list N -> list N).
 
 (* keys as the caller sees them *)
 Inductive akey :=
@@ -31,6 +34,7 @@ Definition transform (k : kind) (a : akey) : list N * list N :=
   | KFloat w, AF b => (enc_f w b, enc_f w b)
   | KCollation, AC o c => (o, c)
   | KCompound s, AT vs => (enc_tuple s vs, enc_tuple s vs)
+  | KCodec enc dec, AB u => (enc u, enc u)
   | _, _ => ([], [])
   end.
 
@@ -42,6 +46,7 @@ Definition restore (k : kind) (l : tree) : akey :=
   | KFloat w => AF (dec_f w (leaf_gk l))
   | KCollation => AC (leaf_gk l) (leaf_tk l)
   | KCompound s => AT (dec_tuple s (leaf_gk l))
+  | KCodec enc dec => AB (dec (leaf_gk l))
   end.
 
 Definition leaf_v (l : tree) : Z := match l with Leaf _ _ v => v | Inner _ => 0%Z end.
@@ -154,7 +159,7 @@ Definition do_range (k : kind) (st : state) (a b : akey) (ans : nat -> bool) : o
     | Gt => seq_out k (run_range (root st) ek sk ek sk ans)
     | Lt => seq_out k (run_range (root st) sk ek sk ek ans)
     end
-  | KCompound _ =>
+  | KCompound _ | KCodec _ _ =>
     match root st with
     | None => OSeq [] 0
     | Some t =>
